@@ -6,7 +6,7 @@ connectives, negations, true/false), applies each to a scratch copy of /repo, an
 Mutants that do not compile are discarded.  Output: one JSON line per mutant in <out>/sweep.jsonl with the checks
 that reported it.  The survivors are a to-do list for triage (equivalent / outside every listed property / a gap).
 
-usage: tools/sweep.py [-n COUNT] [-j JOBS] [--seed S] [--out DIR]
+usage: tools/sweep.py [-n COUNT] [-j JOBS] [--seed S] [--out DIR] [--skip earlier/sweep.jsonl]
 """
 import json
 import os
@@ -115,6 +115,7 @@ def main():
         print(json.dumps(one_inproc(int(args[1]), args[2], int(args[3]), int(args[4]), int(args[5]), args[6])))
         return
     n, j, seed, out = 200, 8, 1, "/tmp/sweep"
+    skip = None
     while args:
         a = args.pop(0)
         if a == "-n":
@@ -125,10 +126,22 @@ def main():
             seed = int(args.pop(0))
         elif a == "--out":
             out = args.pop(0)
+        elif a == "--skip":
+            skip = args.pop(0)
     os.makedirs(out, exist_ok=True)
     from mpcheck import facts
     ss = sites(facts.REPO)
     random.Random(seed).shuffle(ss)
+    if skip:
+        # sites already evaluated by an earlier sweep (its sweep.jsonl) are left out
+        done = set()
+        for l in open(skip):
+            try:
+                r = json.loads(l)
+                done.add((r["file"], r["line"], r.get("rep")))
+            except Exception:
+                pass
+        ss = [x for x in ss if (x[0], x[1] + 1, x[4]) not in done]
     jobs = [(i, s, out) for i, s in enumerate(ss[:n])]
     print("%d candidate sites, running %d" % (len(ss), len(jobs)), flush=True)
     with ThreadPoolExecutor(max_workers=j) as ex:
